@@ -93,7 +93,8 @@ def oracle(c, it):
             first = sorted((t, k) for k, v in downs.items() for t in v)[0]
             # (an input event takes effect in the tick after its arrival: a release at H-1 is handled in the very tick in which the
             # timeout elapses - with concurrent-tap-hold the hold wins there - so the two boundary values are not judged)
-            if now < H - 1 and first[1] != 45:
+            # (a release that arrives in the millisecond of the press is dequeued one tick after it: one more tick of margin)
+            if now < H - 2 and first[1] != 45:
                 return 'first press released after %d ms (< %d) with no other input: expected the tap action, saw key %d first' % (now, H, first[1])
             if now > H and (first[1] == 45 or not (H <= first[0] <= H + 2)):
                 return 'first press held %d ms (> %d) with no other input: expected hold / timeout action at tick %d, saw key %d at tick %d' % (
